@@ -15,7 +15,7 @@ vars == <<cvars, tvars>>
 
 Line == Rec[l]
 
-TInit == Init /\ l = 1 /\ ph = "act" /\ progs = <<>> /\ TLCSet(1, 1)
+TInit == Init /\ l = 1 /\ ph = "act" /\ progs = <<>> /\ TLCSet(1, 1) /\ TLCSet(4, 0)
 
 RootKey == <<0, RootId(progs[1])>>
 
@@ -69,6 +69,8 @@ Match ==
      /\ Line.live = Cardinality(LiveIn(St, RootKey))
      /\ ("alive" \in DOMAIN Line) => Range(Line.alive) = ScriptTasksAlive
      /\ Line.done = (LiveIn(St, RootKey) = {})
+  \* known deviation D12 observed: a task stuck in flatten_unordered is still there
+  /\ IF \E t \in Live(St) : FlatStuck(St, t) THEN TLCSet(4, TLCGet(4) + 1) ELSE TRUE
   /\ Take(RootKey)
   /\ l' = l + 1 /\ ph' = "act" /\ UNCHANGED progs
 
@@ -81,7 +83,8 @@ Progress == IF l > TLCGet(1) THEN TLCSet(1, l) ELSE TRUE
 
 Accepted ==
   LET n == TLCGet(1) IN
-  IF n > Len(Rec) THEN TRUE
-  ELSE /\ PrintT(<<"REJECTED_AT", n, Rec[n]>>)
-       /\ FALSE
+  /\ PrintT(<<"KFHITS", 0, 0, TLCGet(4)>>)
+  /\ IF n > Len(Rec) THEN TRUE
+     ELSE /\ PrintT(<<"REJECTED_AT", n, Rec[n]>>)
+          /\ FALSE
 =============================================================================
